@@ -423,7 +423,7 @@ impl Check for C20 {
         "C20"
     }
     fn profiles(&self) -> Vec<ProfileSpec> {
-        vec![ProfileSpec { name: "keepalive", quick: 2000, thorough: 50_000 }]
+        vec![ProfileSpec { name: "keepalive", quick: 1500, thorough: 50_000 }]
     }
     fn rule(&self) -> &'static str {
         "profile keepalive: peers (dial-in and listed) complete a handshake and then follow an arrival pattern: nothing; keep-alives only (every 1-119 s); real messages with gaps from [0,119] U {119, 119.999} s; a silent stretch >= 361 s at the start, middle or end of a busy life; one peer holds a reservation when it goes silent. Horizon 800-1000 virtual s. Non-trivial: >= 1 connection lived >= 361 s or was closed for inactivity. Distinct: interleaving hash x multiset of arrival-pattern kinds."
@@ -473,11 +473,10 @@ impl Check for C20 {
         let end = v.out.end_ms;
         let kinds: Vec<String> = v.plan.peers.iter().map(|p| format!("{:?}{}", p.keepalive.is_some(), p.script.len())).collect();
         vd.class = hash_of(&kinds);
+        let empty = CS { real: vec![], hs_out: None, kas: vec![] };
         for (c, info) in &v.conns {
-            let st = match cs.get(c) {
-                Some(s) => s,
-                None => continue,
-            };
+            // a connection on which nothing at all happened is still a connection
+            let st = cs.get(c).unwrap_or(&empty);
             let client_close = info.client_close.map(|x| x.1);
             // the peer's close only bounds the obligation when the peer left first (a peer end
             // closing after the client closed is a reaction, not a departure)
